@@ -63,6 +63,7 @@ structure PubAreaView where
 
 inductive SigScheme where
   | ecdsa | eddsa | pkcs1 | pss
+  | pssEq          -- RSASSA-PSS with the salt length fixed to the hash length (crypto/x509); `pss` detects the salt length (COSE, JWS)
   deriving Repr, DecidableEq, Inhabited
 
 inductive Ask where
